@@ -290,6 +290,7 @@ pub struct OrdGen {
     pub pending: std::collections::VecDeque<Op>,
     pub forced_clear_at: Option<usize>,
     pub generated: usize,
+    pub bulk_followup_done: bool,
 }
 
 const W_INS: usize = 0;
@@ -356,7 +357,7 @@ impl OrdWorld {
     }
 
     fn default_gen() -> OrdGen {
-        OrdGen { w: [10, 5, 5, 2, 1, 1, 1, 0, 0, 0, 0, 1, 0, 1], key_pattern: 0, del_w: [1; 8], max_pop: 32, last_key: 0, zig: false, order: Vec::new(), walk_after_mut: false, fill_target: None, fill_pct: 0, clear_after_fill: false, pending: std::collections::VecDeque::new(), forced_clear_at: None, generated: 0 }
+        OrdGen { w: [10, 5, 5, 2, 1, 1, 1, 0, 0, 0, 0, 1, 0, 1], key_pattern: 0, del_w: [1; 8], max_pop: 32, last_key: 0, zig: false, order: Vec::new(), walk_after_mut: false, fill_target: None, fill_pct: 0, clear_after_fill: false, pending: std::collections::VecDeque::new(), forced_clear_at: None, generated: 0, bulk_followup_done: false }
     }
 
     fn draw_gen(cfg: &Cfg, r: &mut Rng) -> OrdGen {
@@ -1362,16 +1363,53 @@ impl World for OrdWorld {
         if self.cfg.sweep_mode == 1 && r.chance(1, 6) {
             return Op::OSweep;
         }
-        if self.model.len() > 50_000 && r.chance(1, 6) {
-            // clear of a very large arena, then refill: a small fill, or a second bulk build that
-            // outgrows the arena the clear left behind
-            if r.chance(1, 2) {
-                self.gen.fill_target = Some(Self::draw_fill_target(&self.cfg, r));
-            } else {
-                let n = (self.model.len() as i32).saturating_add(5000).min(self.cfg.universe);
-                self.gen.pending.push_back(Op::OBulk { n, pat: r.below(3) as u8 });
+        if self.model.len() > 50_000 && !self.gen.bulk_followup_done {
+            // right after a bulk build: neighbour steps at the places where the deepest climbs
+            // and descents are (the ends, and the seam of the two-sided pattern)
+            self.gen.bulk_followup_done = true;
+            if self.is_set {
+                let lo = *self.model.keys().next().unwrap();
+                let hi = *self.model.keys().next_back().unwrap();
+                let mid = lo + (hi - lo + 1) / 2;
+                for op in [Op::ONext { k: mid - 1 }, Op::OPrev { k: mid }, Op::ONext { k: hi }, Op::OPrev { k: lo }, Op::ONext { k: mid }, Op::OPrev { k: mid - 1 }] {
+                    self.gen.pending.push_back(op);
+                }
+                // greybox steering: the entries whose neighbour lies deepest below them (longest
+                // inner spine under the right / left child), read from the structural snapshot
+                if let Some(s) = self.colls[0].snapshot() {
+                    let (mut best_next, mut best_prev) = ((0usize, 0i32), (0usize, 0i32));
+                    let in_tree: Vec<u32> = snap::check_structure(&s).map(|i| i.inorder).unwrap_or_default();
+                    for &ix in &in_tree {
+                        let nd = &s.slots[ix as usize];
+                        for forward in [true, false] {
+                            let mut c = if forward { nd.right } else { nd.left };
+                            let mut d = 0usize;
+                            while (c as usize) < s.slots.len() && d < 200 {
+                                d += 1;
+                                c = if forward { s.slots[c as usize].left } else { s.slots[c as usize].right };
+                            }
+                            if forward && d > best_next.0 {
+                                best_next = (d, nd.key);
+                            }
+                            if !forward && d > best_prev.0 {
+                                best_prev = (d, nd.key);
+                            }
+                        }
+                    }
+                    if best_next.0 >= 33 || best_prev.0 >= 33 {
+                        _ctx.stats.bump("bulk.inner_spine_33_or_longer");
+                    }
+                    if std::env::var("VERIF_DEBUG_BULK").is_ok() {
+                        eprintln!("bulk n={} deepest inner spines: next {:?} prev {:?}", self.model.len(), best_next, best_prev);
+                    }
+                    if self.model.contains_key(&best_next.1) {
+                        self.gen.pending.push_front(Op::ONext { k: best_next.1 });
+                    }
+                    if self.model.contains_key(&best_prev.1) {
+                        self.gen.pending.push_front(Op::OPrev { k: best_prev.1 });
+                    }
+                }
             }
-            return Op::OClear;
         }
         if self.gen.forced_clear_at == Some(self.gen.generated - 1) {
             if r.below(100) < self.gen.fill_pct {
@@ -1383,6 +1421,17 @@ impl World for OrdWorld {
             if self.legal(&op) {
                 return op;
             }
+        }
+        if self.model.len() > 50_000 && r.chance(1, 6) {
+            // clear of a very large arena, then refill: a small fill, or a second bulk build that
+            // outgrows the arena the clear left behind
+            if r.chance(1, 2) {
+                self.gen.fill_target = Some(Self::draw_fill_target(&self.cfg, r));
+            } else {
+                let n = (self.model.len() as i32).saturating_add(5000).min(self.cfg.universe);
+                self.gen.pending.push_back(Op::OBulk { n, pat: r.below(3) as u8 });
+            }
+            return Op::OClear;
         }
         if let Some(t0) = self.gen.fill_target {
             let target = if t0 >= 1_000_000 { self.resolve_fill_target(t0) } else { t0 };
